@@ -3,7 +3,7 @@
     textbook layers of Graph.v (the distance classes, GraphProofs.ref_layers_dist). *)
 From Coq Require Import ZArith List Bool Arith Lia.
 Import ListNotations.
-From V Require Import Base Graph Perm Matrix RefBfs RefBfsProofs.
+From V Require Import Base W64 W64Proofs Graph Perm Matrix RefBfs RefBfsProofs.
 Local Open Scope nat_scope.   (* Matrix.v opens Z_scope for its importers *)
 
 (* how a dataset key denotes generators: one-line permutations (library convention
@@ -23,9 +23,18 @@ Fixpoint stride (m n : nat) (S : list Z) : list Z :=
 Definition columns (n m : nat) (S : list Z) : list (list Z) :=
   map (fun k => stride m n (skipn k S)) (seq 0 m).
 
+(* int64 wrap-around that costs a comparison when nothing wraps (a 64-bit division otherwise) *)
+Definition wrap_fast (z : Z) : Z :=
+  if ((- two63 <=? z) && (z <? two63))%Z then z else wrap z.
+
+Definition dot_mod_fast (modulo : Z) (terms : list (Z * Z)) : Z :=
+  if (0 <? modulo)%Z
+  then (wrap_fast (zsum (map (fun '(a, b) => (wrap_fast (a * b) mod modulo)%Z) terms)) mod modulo)%Z
+  else wrap_fast (zsum (map (fun '(a, b) => (a * b)%Z) terms)).
+
 Definition mat_apply_fast (modulo : Z) (n m : nat) (M : list (list Z)) (S : list Z) : list Z :=
   let cols := columns n m S in
-  flat_map (fun Mi => map (fun col => dot_mod modulo (combine Mi col)) cols) M.
+  flat_map (fun Mi => map (fun col => dot_mod_fast modulo (combine Mi col)) cols) M.
 
 (* what is executed *)
 Definition rb_funs (g : rb_gens) : list (zstate -> zstate) :=
@@ -125,6 +134,21 @@ Proof.
   rewrite nth_skipn_add. reflexivity.
 Qed.
 
+Lemma wrap_fast_eq z : wrap_fast z = wrap z.
+Proof.
+  unfold wrap_fast. destruct ((- two63 <=? z) && (z <? two63))%Z eqn:E; auto.
+  apply andb_true_iff in E. destruct E as [E1 E2].
+  apply Z.leb_le in E1. apply Z.ltb_lt in E2.
+  symmetry. apply wrap_id. unfold in64. split; assumption.
+Qed.
+
+Lemma dot_mod_fast_eq modulo terms : dot_mod_fast modulo terms = dot_mod modulo terms.
+Proof.
+  unfold dot_mod_fast, dot_mod. destruct (0 <? modulo)%Z.
+  - rewrite wrap_fast_eq. do 3 f_equal. apply map_ext. intros [a b]. rewrite wrap_fast_eq. reflexivity.
+  - apply wrap_fast_eq.
+Qed.
+
 Theorem mat_apply_fast_eq modulo n m M S :
   length M = n -> (forall r, In r M -> length r = n) ->
   mat_apply_fast modulo n m M S = mat_apply modulo n m M S.
@@ -135,7 +159,8 @@ Proof.
   { intros F. rewrite <- (flat_map_map_r F (fun i => nth i M [])), map_nth_seq_id. reflexivity. }
   etransitivity; [|symmetry; apply (E (fun Mi => map (fun k => dot_mod modulo
       (map (fun j => (nth j Mi 0%Z, mat_entry m S j k)) (seq 0 (length M)))) (seq 0 m)))].
-  apply flat_map_ext_in. intros Mi HMi. rewrite map_map. apply map_ext. intros k. f_equal.
+  apply flat_map_ext_in. intros Mi HMi. rewrite map_map. apply map_ext. intros k.
+  rewrite dot_mod_fast_eq. f_equal.
   rewrite stride_spec.
   transitivity (combine (map (fun j => nth j Mi 0%Z) (seq 0 (length M)))
                         (map (fun j => nth (j * m) (skipn k S) 0%Z) (seq 0 (length M)))).
